@@ -47,13 +47,14 @@ func c02markerChan(f *c04fixture, srv int) chan int {
 
 // c02sendReal makes server `from` send pm to server `to` through the routers and waits until the
 // receiving router has dispatched it (the marker behind it on the same connection was processed).
-func c02sendReal(f *c04fixture, from, to int, pm *onet.ProtocolMsg) error {
+func c02sendReal(f *c04fixture, from, to int, pm *onet.ProtocolMsg, pre ...network.Message) error {
 	ch := c02markerChan(f, to)
 	c02markMu.Lock()
 	c02markN++
 	n := c02markN
 	c02markMu.Unlock()
-	if _, err := f.cl.Servers[from].Send(f.cl.SI(to), pm, &c02Marker{n}); err != nil {
+	msgs := append(append([]network.Message{}, pre...), pm, &c02Marker{n})
+	if _, err := f.cl.Servers[from].Send(f.cl.SI(to), msgs...); err != nil {
 		return err
 	}
 	dl := time.After(10 * time.Second)
